@@ -8,7 +8,7 @@ use std::collections::{BTreeMap, BTreeSet};
 
 use iroh_docs::{
     store::{DownloadPolicy, FilterKind, Query, SortBy, SortDirection, Store},
-    Capability, CapabilityKind,
+    Capability, CapabilityKind, NamespaceId,
 };
 use serde::{Deserialize, Serialize};
 
@@ -100,11 +100,81 @@ pub enum DStep {
     Observe,
 }
 
+/// A read-only document with a crafted id next to a real one in byte order (document index
+/// `N_DOCS + position`): it can hold settings (capability, policy, peers) but never entries.
+#[derive(Serialize, Deserialize, Clone, Debug, PartialEq, Eq)]
+pub struct Ghost {
+    pub of: u8,
+    /// 0 predecessor, 1 successor, 2 id with the last byte set to FF, 3 successor of that,
+    /// 4 all FF, 5 all zero, 6 id + 256, 7 id - 256
+    pub kind: u8,
+}
+
+fn add_be(mut id: [u8; 32], from: usize, up: bool) -> [u8; 32] {
+    let mut i = from as isize;
+    while i >= 0 {
+        let b = &mut id[i as usize];
+        if up {
+            *b = b.wrapping_add(1);
+            if *b != 0 {
+                break;
+            }
+        } else {
+            *b = b.wrapping_sub(1);
+            if *b != 0xFF {
+                break;
+            }
+        }
+        i -= 1;
+    }
+    id
+}
+
+impl Ghost {
+    pub fn id(&self) -> NamespaceId {
+        let base = world().doc_id(self.of).to_bytes();
+        let id = match self.kind {
+            0 => add_be(base, 31, false),
+            1 => add_be(base, 31, true),
+            2 => {
+                let mut b = base;
+                b[31] = 0xFF;
+                b
+            }
+            3 => {
+                let mut b = base;
+                b[31] = 0xFF;
+                add_be(b, 31, true)
+            }
+            4 => [0xFF; 32],
+            5 => [0u8; 32],
+            6 => add_be(base, 30, true),
+            _ => add_be(base, 30, false),
+        };
+        NamespaceId::from(id)
+    }
+}
+
 #[derive(Serialize, Deserialize, Clone, Debug)]
 pub struct DocsPlan {
     pub seed: u64,
     pub backend: Backend,
+    #[serde(default)]
+    pub ghosts: Vec<Ghost>,
     pub steps: Vec<DStep>,
+}
+
+impl DocsPlan {
+    fn ns(&self, d: u8) -> NamespaceId {
+        if (d as usize) < crate::world::N_DOCS {
+            world().doc_id(d)
+        } else {
+            self.ghosts[(d as usize - crate::world::N_DOCS) % self.ghosts.len().max(1)].id()
+        }
+    }
+    fn is_ghost(&self, d: u8) -> bool {
+        (d as usize) >= crate::world::N_DOCS
+    }
 }
 
 #[derive(Clone, Default, Debug)]
@@ -131,9 +201,7 @@ struct Obs {
     cap: Option<u8>,
 }
 
-fn observe(store: &mut Store, d: u8) -> Result<Obs, String> {
-    let w = world();
-    let ns = w.doc_id(d);
+fn observe(store: &mut Store, ns: NamespaceId) -> Result<Obs, String> {
     let ser = |e: &iroh_docs::SignedEntry| postcard::to_stdvec(e).unwrap();
     let entries: Vec<Vec<u8>> = store
         .get_many(ns, Query::all().include_empty())
@@ -192,6 +260,27 @@ impl Scenario for Docs {
         };
         let n = rng.urange(5, tier.pick(30, 40));
         let mut steps = Vec::new();
+        // crafted read-only neighbours of the real documents (ids adjacent in byte order)
+        let mut ghosts: Vec<Ghost> = Vec::new();
+        if rng.chance(if self.mode == Mode::Remove { 3 } else { 1 }, 4) {
+            for _ in 0..rng.urange(1, 3) {
+                let g = Ghost { of: rng.below(ndocs as u64) as u8, kind: rng.below(8) as u8 };
+                let taken = (0..ndocs).map(|d| world().doc_id(d)).chain(ghosts.iter().map(|g| g.id())).any(|id| id == g.id());
+                if !taken {
+                    ghosts.push(g);
+                }
+            }
+        }
+        let nall = ndocs + ghosts.len() as u8;
+        let pick_doc = |rng: &mut Rng| -> u8 {
+            let i = rng.below(nall as u64) as u8;
+            if i < ndocs { i } else { crate::world::N_DOCS as u8 + (i - ndocs) }
+        };
+        for g in 0..ghosts.len() as u8 {
+            if rng.chance(4, 5) {
+                steps.push(DStep::ImportCap { d: crate::world::N_DOCS as u8 + g, write: false });
+            }
+        }
         // most runs start with documents existing
         for d in 0..ndocs {
             if rng.chance(4, 5) {
@@ -208,10 +297,12 @@ impl Scenario for Docs {
         };
         for _ in 0..n {
             let d = rng.below(ndocs as u64) as u8;
+            // settings operations may address a crafted neighbour; writes never do
+            let da = pick_doc(rng);
             let s = match rng.weighted(&weights) {
-                0 => DStep::ImportCap { d, write: rng.chance(1, 2) },
-                1 => DStep::Open { d },
-                2 => DStep::Close { d },
+                0 => DStep::ImportCap { d: da, write: rng.chance(1, 2) },
+                1 => DStep::Open { d: da },
+                2 => DStep::Close { d: da },
                 3 => {
                     let mut e = gen_ent(rng, &g);
                     e.d = d;
@@ -223,15 +314,15 @@ impl Scenario for Docs {
                     };
                     DStep::Offer { e, path }
                 }
-                4 => DStep::Remove { d },
-                5 => DStep::SetPolicy { d, p: gen_policy(rng) },
+                4 => DStep::Remove { d: da },
+                5 => DStep::SetPolicy { d: da, p: gen_policy(rng) },
                 6 => {
                     let dt = if self.mode == Mode::PeersClockFault {
                         *rng.pick(&[1i64, 1, 7, 0, 0, -3, -50])
                     } else {
                         rng.range(1, 20) as i64
                     };
-                    { let np = if rng.chance(1, 2) { 9 } else { 6 }; DStep::Register { d, peer: rng.below(np) as u8, dt } }
+                    { let np = if rng.chance(1, 2) { 9 } else { 6 }; DStep::Register { d: da, peer: rng.below(np) as u8, dt } }
                 }
                 7 => DStep::Restart,
                 8 => DStep::FlushCrash { l2: rng.chance(1, 2) },
@@ -242,7 +333,7 @@ impl Scenario for Docs {
             steps.push(s);
         }
         steps.push(DStep::Observe);
-        DocsPlan { seed: rng.next_u64(), backend, steps }
+        DocsPlan { seed: rng.next_u64(), backend, ghosts, steps }
     }
 
     fn exec(&self, plan: &DocsPlan, cx: &mut Cx) -> Res {
@@ -254,6 +345,16 @@ impl Scenario for Docs {
         for c in shrink_vec(&plan.steps) {
             let mut p = plan.clone();
             p.steps = c;
+            out.push(p);
+        }
+        if !plan.ghosts.is_empty() {
+            // without the crafted neighbours (and the steps that address them)
+            let mut p = plan.clone();
+            p.ghosts.clear();
+            p.steps.retain(|s| match s {
+                DStep::ImportCap { d, .. } | DStep::Open { d } | DStep::Close { d } | DStep::Remove { d } | DStep::SetPolicy { d, .. } | DStep::Register { d, .. } => (*d as usize) < crate::world::N_DOCS,
+                _ => true,
+            });
             out.push(p);
         }
         if plan.backend != Backend::Mem && !plan.steps.iter().any(|s| matches!(s, DStep::Restart | DStep::FlushCrash { .. } | DStep::DropDerived { .. } | DStep::Reopen { .. })) {
@@ -288,7 +389,7 @@ impl Scenario for Docs {
     }
 
     fn rule(&self) -> String {
-        "A run is a history of 5-40 steps over 2-4 documents with adjacent ids: capability imports (read/write), open/close, local/remote/in-message writes, remove and re-create, download policies, useful-peer registrations (1-9 peers, per-run clock), clean restarts, flush+crash (L1/L2), derived-table drops and repeated reopens, with full observations in between compared with the RefStore model. Non-trivial: a restart/crash/rebuild fault fired or a rare branch (eviction, removal with residue candidates, refused write) was hit.".into()
+        "A run is a history of 5-40 steps over 2-4 documents with adjacent ids (real key pairs sorted by id, half of them ending in 0xFF; in a quarter of the runs - three quarters for C16 - also 1-3 read-only documents with crafted ids: predecessor, successor, last byte FF and its successor, +-256, all-FF, all-zero of a real id, which take settings but never entries): capability imports (read/write), open/close, local/remote/in-message writes, remove and re-create, download policies, useful-peer registrations (1-9 peers, per-run clock), clean restarts, flush+crash (L1/L2), derived-table drops and repeated reopens, with full observations in between compared with the RefStore model. Non-trivial: a restart/crash/rebuild fault fired or a rare branch (eviction, removal with residue candidates, refused write) was hit.".into()
     }
 }
 
@@ -296,13 +397,14 @@ impl Docs {
     async fn run(&self, plan: &DocsPlan, cx: &mut Cx) -> Res {
         let w = world();
         let mut sut = Sut::new(plan.backend)?;
-        let mut m: Vec<DocModel> = vec![DocModel::default(); crate::world::N_DOCS];
+        let mut m: Vec<DocModel> = vec![DocModel::default(); crate::world::N_DOCS + plan.ghosts.len()];
         let mut clock: i64 = 1_000_000;
         let mode = self.mode;
         for (si, step) in plan.steps.iter().enumerate() {
             match step {
                 DStep::ImportCap { d, write } => {
-                    let cap = if *write { Capability::Write(w.docs[*d as usize].clone()) } else { Capability::Read(w.doc_id(*d)) };
+                    let write = &(*write && !plan.is_ghost(*d));
+                    let cap = if *write { Capability::Write(w.docs[*d as usize].clone()) } else { Capability::Read(plan.ns(*d)) };
                     let before: Vec<Option<bool>> = m.iter().map(|x| x.cap).collect();
                     let r = sut.store().import_namespace(cap).map_err(|e| harness(format!("import: {e:#}")))?;
                     let dm = &mut m[*d as usize];
@@ -311,7 +413,7 @@ impl Docs {
                     let _ = before;
                 }
                 DStep::Open { d } => {
-                    let r = sut.store().load_replica_info(&w.doc_id(*d));
+                    let r = sut.store().load_replica_info(&plan.ns(*d));
                     cx.ev("open", format!("d{d} -> {}", r.is_ok()));
                     match (r.is_ok(), m[*d as usize].cap.is_some()) {
                         (true, true) => m[*d as usize].open = true,
@@ -324,7 +426,7 @@ impl Docs {
                     }
                 }
                 DStep::Close { d } => {
-                    sut.store().close_replica(w.doc_id(*d));
+                    sut.store().close_replica(plan.ns(*d));
                     m[*d as usize].open = false;
                     cx.ev("close", format!("d{d}"));
                 }
@@ -334,7 +436,7 @@ impl Docs {
                     // `offer` opens and closes the replica around the operation
                     let was_open = dm.open;
                     if was_open && dm.cap.is_some() {
-                        let _ = sut.store().load_replica_info(&w.doc_id(e.d));
+                        let _ = sut.store().load_replica_info(&plan.ns(e.d));
                     }
                     cx.ev("offer", format!("{} {:?} -> {:?}", e.short(), path, got));
                     match dm.cap {
@@ -372,14 +474,14 @@ impl Docs {
                         let mut v = Vec::new();
                         for o in 0..m.len() as u8 {
                             if o != *d {
-                                v.push((o, observe(sut.store(), o).map_err(harness)?));
+                                v.push((o, observe(sut.store(), plan.ns(o)).map_err(harness)?));
                             }
                         }
                         v
                     } else {
                         Vec::new()
                     };
-                    let r = sut.store().remove_replica(&w.doc_id(*d));
+                    let r = sut.store().remove_replica(&plan.ns(*d));
                     let dm = &mut m[*d as usize];
                     cx.ev("remove", format!("d{d} open={} -> {}", dm.open, r.is_ok()));
                     if dm.open {
@@ -405,7 +507,7 @@ impl Docs {
                     }
                     if mode == Mode::Remove {
                         for (o, before) in others_before {
-                            let after = observe(sut.store(), o).map_err(harness)?;
+                            let after = observe(sut.store(), plan.ns(o)).map_err(harness)?;
                             if after != before {
                                 let what = if after.entries != before.entries { "entries" } else if after.heads != before.heads || after.head_keys != before.head_keys { "heads" } else if after.peers != before.peers { "peers" } else if after.policy != before.policy { "policy" } else if after.cap != before.cap { "capability" } else { "index" };
                                 return Err(Violation::new(format!("collateral/{what}"), format!("step {si}: removing d{d} changed the {what} of d{o}")));
@@ -414,7 +516,7 @@ impl Docs {
                     }
                 }
                 DStep::SetPolicy { d, p } => {
-                    let r = sut.store().set_download_policy(&w.doc_id(*d), p.real());
+                    let r = sut.store().set_download_policy(&plan.ns(*d), p.real());
                     let dm = &mut m[*d as usize];
                     cx.ev("set-policy", format!("d{d} -> {}", r.is_ok()));
                     match (r.is_ok(), dm.cap.is_some()) {
@@ -440,7 +542,7 @@ impl Docs {
                         cx.fault(if *dt == 0 { "clock_stall" } else { "clock_backward_jump" });
                     }
                     iroh_docs::verif::set_wall_clock_micros(Some(clock.max(1) as u64));
-                    let r = sut.store().register_useful_peer(w.doc_id(*d), w.peers[*peer as usize]);
+                    let r = sut.store().register_useful_peer(plan.ns(*d), w.peers[*peer as usize]);
                     iroh_docs::verif::set_wall_clock_micros(None);
                     let dm = &mut m[*d as usize];
                     cx.ev("register", format!("d{d} p{peer} dt={dt} -> {}", r.is_ok()));
@@ -491,7 +593,7 @@ impl Docs {
                 }
                 DStep::DropDerived { by_key, heads } => {
                     if sut.backend == Backend::Disk && (*by_key || *heads) {
-                        let before: Vec<Obs> = if mode == Mode::Migrate { (0..m.len() as u8).map(|d| observe(sut.store(), d).map_err(harness)).collect::<Res<_>>()? } else { vec![] };
+                        let before: Vec<Obs> = if mode == Mode::Migrate { (0..m.len() as u8).map(|d| observe(sut.store(), plan.ns(d)).map_err(harness)).collect::<Res<_>>()? } else { vec![] };
                         drop_derived(&mut sut, *by_key, *heads)?;
                         for dm in m.iter_mut() {
                             dm.open = false;
@@ -500,7 +602,7 @@ impl Docs {
                         cx.ev("drop-derived", format!("{by_key} {heads}"));
                         if mode == Mode::Migrate {
                             for (d, b) in before.iter().enumerate() {
-                                let a = observe(sut.store(), d as u8).map_err(harness)?;
+                                let a = observe(sut.store(), plan.ns(d as u8)).map_err(harness)?;
                                 if a.heads != b.heads {
                                     return Err(Violation::new("rebuild/heads", format!("step {si}: after reopening without the derived tables (by_key={by_key}, heads={heads}) d{d} reports heads {:?}, before {:?}", short_heads(&a.heads), short_heads(&b.heads))));
                                 }
@@ -519,7 +621,7 @@ impl Docs {
                 }
                 DStep::Reopen { times } => {
                     if sut.can_restart() {
-                        let before: Vec<Obs> = if mode == Mode::Migrate { (0..m.len() as u8).map(|d| observe(sut.store(), d).map_err(harness)).collect::<Res<_>>()? } else { vec![] };
+                        let before: Vec<Obs> = if mode == Mode::Migrate { (0..m.len() as u8).map(|d| observe(sut.store(), plan.ns(d)).map_err(harness)).collect::<Res<_>>()? } else { vec![] };
                         for _ in 0..*times {
                             sut.restart_clean()?;
                             cx.fault("clean_restart");
@@ -530,7 +632,7 @@ impl Docs {
                         cx.ev("reopen", format!("{times}"));
                         if mode == Mode::Migrate {
                             for (d, b) in before.iter().enumerate() {
-                                let a = observe(sut.store(), d as u8).map_err(harness)?;
+                                let a = observe(sut.store(), plan.ns(d as u8)).map_err(harness)?;
                                 if &a != b {
                                     let what = if a.entries != b.entries { "entries" } else if a.by_key != b.by_key { "key-ordered query" } else if a.heads != b.heads { "heads" } else if a.head_keys != b.head_keys { "the key reported with a head" } else if a.peers != b.peers { "peers" } else if a.policy != b.policy { "policy" } else { "capability" };
                                     return Err(Violation::new("reopen-noop/changed", format!("step {si}: reopening an up-to-date database {times} times changed {what} of d{d}")));
@@ -540,22 +642,28 @@ impl Docs {
                     }
                 }
                 DStep::Observe => {
-                    self.check_all(sut.store(), &m, si, cx)?;
+                    self.check_all(plan, sut.store(), &m, si, cx)?;
                 }
             }
         }
         Ok(())
     }
 
-    fn check_all(&self, store: &mut Store, m: &[DocModel], si: usize, cx: &mut Cx) -> Res {
+    fn check_all(&self, plan: &DocsPlan, store: &mut Store, m: &[DocModel], si: usize, cx: &mut Cx) -> Res {
         let w = world();
         let mode = self.mode;
         let mut all_hashes: BTreeSet<[u8; 32]> = BTreeSet::new();
         for (d, dm) in m.iter().enumerate() {
             let d = d as u8;
-            let o = observe(store, d).map_err(harness)?;
+            let o = observe(store, plan.ns(d)).map_err(harness)?;
             cx.ev("observe", format!("d{d} entries={} heads={} peers={:?} cap={:?}", o.entries.len(), o.heads.len(), o.peers.as_ref().map(|p| p.len()), o.cap));
             let want_entries: Vec<Vec<u8>> = dm.doc.0.values().map(|e| postcard::to_stdvec(&e.signed()).unwrap()).collect();
+            if plan.is_ghost(d) {
+                cx.probe("crafted_neighbour_observed");
+                if matches!(mode, Mode::Remove | Mode::Migrate) && (!o.entries.is_empty() || !o.by_key.is_empty() || !o.heads.is_empty()) {
+                    return Err(Violation::new("collateral/neighbour-id-sees-entries", format!("step {si}: the crafted read-only document {} (never written to) shows {} entries / {} index rows / {} heads of a document next to it", hex::encode(&plan.ns(d).to_bytes()[28..]), o.entries.len(), o.by_key.len(), o.heads.len())));
+                }
+            }
             for e in dm.doc.0.values() {
                 all_hashes.insert(*crate::world::content(e.c).0.as_bytes());
             }
